@@ -247,6 +247,23 @@ def build_driver(name: str):
     return True, "built"
 
 
+
+def coqchk(prop: str, timeout=1500):
+    """Independent re-check of the property's .vo closure (thorough tier). Returns (ok, summary dict, raw tail)."""
+    p = subprocess.run(["timeout", str(timeout), "coqchk", "-o", "-silent", "-Q", "theories", "OV", f"OV.Properties.{prop}"],
+                       cwd=COQ, stdout=subprocess.PIPE, stderr=subprocess.STDOUT, text=True)
+    out = p.stdout
+    summ = {}
+    m = re.search(r"CONTEXT SUMMARY(.*)$", out, re.S)
+    if m:
+        for key, label in (("axioms", "Axioms"), ("type_in_type", "relying on type-in-type"),
+                           ("unsafe_fixpoints", "relying on unsafe (co)fixpoints"), ("assumed_positivity", "positivity is assumed")):
+            mm = re.search(r"\* [^\n]*%s: *(.*?)(?=\n\s*\n|\Z)" % re.escape(label), m.group(1), re.S)
+            summ[key] = " ".join(mm.group(1).split()) if mm else "<unparsed>"
+    ok = p.returncode == 0 and summ and all(v == "<none>" for v in summ.values())
+    return ok, summ, out[-1500:]
+
+
 def prepare(ctx, coq_targets, drivers, allowed_axioms=()):
     """Translate, build Coq targets for this property, check assumptions, build drivers.
 
@@ -298,6 +315,13 @@ def prepare(ctx, coq_targets, drivers, allowed_axioms=()):
         else:
             for t in thms:
                 ctx.obligations.append({"name": t, "kind": "theorem", "ok": False})
+        if ok and getattr(ctx, "tier", "quick") == "thorough" and prop_vo.exists():
+            cok, summ, raw = coqchk(prop)
+            ctx.extra["coqchk"] = {"cmd": f"coqchk -o -silent -Q theories OV OV.Properties.{prop}", "ok": bool(cok), "summary": summ}
+            ctx.obligations.append({"name": "coqchk -o (independent checker, axioms / type-in-type / unsafe fixpoints / assumed positivity all <none>)",
+                                    "kind": "coqchk", "ok": bool(cok)})
+            if not cok:
+                ctx.obligation_failure("coqchk", f"coqchk did not accept the closure of Properties/{prop}.vo or reports assumptions: {summ} {raw[-300:]}")
         for d in drivers:
             dok, msg = build_driver(d) if (TH / "Extract" / f"Ex_{d}.vo").exists() else (False, "extraction did not build")
             status["drivers"][d] = dok
